@@ -237,19 +237,35 @@ def prove(prop_id, repo='/repo', timeout=1800):
         return res
 
 
-def build_model_driver(prop_id):
-    """Extract coq/Extract/Extract_<id>.v and build ocaml/drv_<id>.ml against it. Returns exe path."""
-    with Lock('.ocaml.lock'):
+def extract_deps(ex):
+    """the .vo files (relative to coq/) an Extract file needs"""
+    t = strip_comments(open(ex).read())
+    mods = re.findall(r'NixV\.([A-Za-z0-9_\.]+)', t)
+    return sorted(set(m.rstrip('.').replace('.', os.sep) + '.vo' for m in mods))
+
+
+def build_model_driver(prop_id, repo='/repo'):
+    """Extract coq/Extract/Extract_<id>.v (from the model regenerated/rebuilt against `repo`) and build
+    ocaml/drv_<id>.ml against it. Returns exe path."""
+    with Lock('.coq.lock'):
         odir = os.path.join(BUILD, 'ocaml', prop_id)
         os.makedirs(odir, exist_ok=True)
         ex = os.path.join(COQ, 'Extract', 'Extract_%s.v' % prop_id)
+        regenerate(repo)
+        write_project()
+        ok, log = make(extract_deps(ex), 1800)
+        if not ok:
+            raise RuntimeError('model files do not build: ' + log[-3000:])
         r = subprocess.run(['timeout', '900', 'coqc', '-w', '-all', '-Q', COQ, 'NixV', ex], cwd=odir,
                            capture_output=True, text=True)
         if r.returncode != 0:
             raise RuntimeError('extraction failed: ' + (r.stdout + r.stderr)[-3000:])
         model = os.path.join(odir, 'model_%s.ml' % prop_id)
-        parts = [open(os.path.join(VERIF, 'ocaml', 'prelude.ml')).read(), open(model).read(), open(os.path.join(VERIF, 'ocaml', 'common.ml')).read(),
-                 open(os.path.join(VERIF, 'ocaml', 'drv_%s.ml' % prop_id)).read()]
+        drv = open(os.path.join(VERIF, 'ocaml', 'drv_%s.ml' % prop_id)).read()
+        uses = re.findall(r'\(\* use: ([A-Za-z0-9_]+) \*\)', drv)
+        parts = [open(os.path.join(VERIF, 'ocaml', 'prelude.ml')).read(), open(model).read(),
+                 open(os.path.join(VERIF, 'ocaml', 'common.ml')).read()] + \
+                [open(os.path.join(VERIF, 'ocaml', u + '.ml')).read() for u in uses] + [drv]
         allml = os.path.join(odir, 'all_%s.ml' % prop_id)
         txt = '\n'.join(parts)
         exe = os.path.join(odir, 'modeldrv_%s' % prop_id)
